@@ -160,11 +160,14 @@ fn gen_msg(r: &mut impl Rng) -> Msg {
         }
     }
     headers.sort();
-    let body_len = match r.gen_range(0..10) {
-        0..=2 => 0,
-        3..=6 => r.gen_range(1..200),
-        7..=8 => r.gen_range(200..2000),
-        _ => r.gen_range(2000..6000),
+    // (sizes around and beyond the 8 KiB at which the framed writer stops buffering included)
+    let body_len = match r.gen_range(0..20) {
+        0..=5 => 0,
+        6..=12 => r.gen_range(1..200),
+        13..=16 => r.gen_range(200..2000),
+        17 => r.gen_range(2000..6000),
+        18 => r.gen_range(8_100..8_300),
+        _ => r.gen_range(6_000..70_000),
     };
     let mut body = vec![0u8; body_len];
     r.fill(&mut body[..]);
@@ -282,7 +285,8 @@ fn run(input: RunInput) -> ScenFuture {
         let m = gen_msg(&mut r);
         let mut cfg = anemo::Config::default();
         let max_frame = if r.gen_bool(0.3) {
-            let l = r.gen_range(6_500..20_000usize);
+            // (this scenario studies well-formed messages within the limits: C15 has the limits)
+            let l = r.gen_range(6_500..20_000usize).max(m.body.len() + r.gen_range(0..100));
             cfg.max_frame_size = Some(l);
             l
         } else {
